@@ -68,6 +68,11 @@ def varweights(ctx):
     cl = K.check_function(I, "kmeans.accumulate_indices_means_vars", lambda: ([KM.mk_data(), KM.mk_means()], {}),
                           KM.spec_accumulate, KM.facts(), "C20.accumulate")
     out += collapse(cl, "C20.accumulate", "per block: assignments, Σ_s [a(s)=k] x, Σ_s [a(s)=k] x^2")
+    # integer-typed samples (uint8 pixels, int16 audio): the sums of squares must not be formed in the samples' own dtype
+    I = new_interp(KC)
+    cl = K.check_function(I, "kmeans.accumulate_indices_means_vars", lambda: ([KM.mk_data(intdata=True), KM.mk_means()], {}),
+                          KM.spec_accumulate, KM.facts(), "C20.accumulate.int")
+    out += collapse(cl, "C20.accumulate.intdata", "integer-typed samples: Σ x and Σ x^2 per cluster are exact (no arithmetic in the samples' integer dtype)")
     # reduce over one block and over a symbolic list of blocks
     for label in ("one", "blocks"):
         I = new_interp()
